@@ -291,7 +291,17 @@ class RepoInterp:
             return x if isinstance(x, V) else K(x)
         return platform_subscript(obj, key)
 
+    STDLIB_HEADS = ("operator", "functools", "itertools", "contextlib", "collections", "keyword", "re", "os", "inspect", "importlib", "sysconfig", "typing")
+
     def on_call(self, call: ast.Call, fname: Optional[str], fval: Optional[V], args: List[V], kwargs: Dict[str, V], st: State) -> Optional[V]:
+        if fname and isinstance(call.func, (ast.Name, ast.Attribute)) and fname.split(".")[0] not in st.env:
+            # `from operator import methodcaller as _mc`: the call is named by what the alias stands for
+            head, _, rest = fname.partition(".")
+            tgt = self.cur_fi.module.imports.get(head)
+            if tgt and tgt != head and tgt.split(".")[0] in self.STDLIB_HEADS and (tgt.split(".")[-1] != head or "." in tgt):
+                canon = tgt + ("." + rest if rest else "")
+                if canon.split(".")[-1] != fname.split(".")[-1] or head != tgt.split(".")[-1]:
+                    fname = canon
         if isinstance(fval, R) and fval.kind == "rawfunc" and isinstance(call.func, ast.Name):
             # the undecorated function a package decorator was handed
             raw = next((f for f in self.repo.all_functions() if f.fq == fval.fields["fq"].v), None)
@@ -309,6 +319,14 @@ class RepoInterp:
                 finally:
                     self.self_class = saved_r
             return self._inline_call(raw, call, None, args, kwargs, st)
+        if fval is None and isinstance(call.func, ast.Name) and call.func.id not in st.env and call.func.id in self.cur_fi.module.constants \
+                and isinstance(self.cur_fi.module.constants[call.func.id], ast.Attribute) and isinstance(self.cur_fi.module.constants[call.func.id].value, ast.Constant) \
+                and isinstance(self.cur_fi.module.constants[call.func.id].value.value, str):
+            # NAME = "template {x}".format  - a bound method of a string constant kept under a name: NAME(...) is that call
+            cnode = self.cur_fi.module.constants[call.func.id]
+            fake_s = ast.Call(func=cnode, args=call.args, keywords=call.keywords)
+            ast.copy_location(fake_s, call)
+            return self.interp.eval(fake_s, st)
         if fval is None and isinstance(call.func, ast.Name) and call.func.id not in st.env and call.func.id in self.cur_fi.module.constants \
                 and call.func.id not in self.cur_fi.module.functions and call.func.id not in self.cur_fi.module.classes:
             # a module-level constant that holds a callable value (operator.attrgetter(...), a lambda, functools.partial(...))
@@ -539,7 +557,7 @@ class RepoInterp:
         # operator.attrgetter("a", "b.c") / operator.itemgetter(0, 2): first-class accessors
         if fname in ("operator.attrgetter", "attrgetter", "operator.itemgetter", "itemgetter") and args and not kwargs and all(isinstance(a, K) for a in args):
             return R("accessor", what=K("attr" if fname.endswith("attrgetter") else "item"), names=K(tuple(args)))
-        if isinstance(fval, R) and fval.kind == "accessor" and isinstance(call.func, ast.Name) and len(args) == 1 and not kwargs:
+        if isinstance(fval, R) and fval.kind == "accessor" and fval.fields["what"].v in ("attr", "item") and isinstance(call.func, ast.Name) and len(args) == 1 and not kwargs:
             got: List[V] = []
             for nm in fval.fields["names"].v:
                 cur: V = args[0]
@@ -568,12 +586,77 @@ class RepoInterp:
                             st.env[tmp_name] = saved_acc
                 got.append(cur)
             return got[0] if len(got) == 1 else K(tuple(got))
+        if fname == "getattr" and len(args) == 2 and not kwargs and isinstance(args[1], K) and isinstance(args[1].v, str) and args[1].v.isidentifier() \
+                and isinstance(call.func, ast.Name) and "getattr" not in st.env:
+            # getattr(obj, "name") with a constant name is obj.name
+            saved_g = st.env.get("__ga_obj__")
+            st.env["__ga_obj__"] = args[0]
+            try:
+                v_g = it.eval(ast.Attribute(value=ast.Name(id="__ga_obj__", ctx=ast.Load()), attr=args[1].v, ctx=ast.Load()), st)
+            finally:
+                if saved_g is None:
+                    st.env.pop("__ga_obj__", None)
+                else:
+                    st.env["__ga_obj__"] = saved_g
+            if not isinstance(v_g, U):
+                return v_g
+        if fname in ("functools.update_wrapper", "update_wrapper") and len(args) >= 2:
+            return args[0]  # copies metadata onto the wrapper and returns it
+        if fname in ("functools.lru_cache", "lru_cache", "functools.cache", "cache") and self.heap and not (len(args) == 1 and isinstance(args[0], R) and args[0].kind == "localfunc"):
+            return R("memo_decorator")  # functools.lru_cache(maxsize=...) - applied to a function below
+        if fname in ("functools.lru_cache", "lru_cache", "functools.cache", "cache") and self.heap and len(args) == 1 and isinstance(args[0], R) and args[0].kind == "localfunc":
+            return args[0].replace(memo=st.alloc("dict", {}))
+        if isinstance(fval, R) and fval.kind == "memo_decorator" and not isinstance(call.func, (ast.Name, ast.Attribute)) and len(args) == 1 \
+                and isinstance(args[0], R) and args[0].kind == "localfunc":
+            return args[0].replace(memo=st.alloc("dict", {}))  # functools.lru_cache(...)(f): f with a table of its own
+        if isinstance(fval, R) and fval.kind == "memo_decorator" and not isinstance(call.func, (ast.Name, ast.Attribute)) and len(args) == 1 \
+                and (isinstance(args[0], R) and args[0].kind in ("boundmethod", "rawfunc") or isinstance(args[0], S) and args[0].name.startswith("func:")):
+            return R("memoized", of=args[0], memo=st.alloc("dict", {}))  # ... a bound method / function behind a table of its own
+        if fname == "next" and 1 <= len(args) <= 2 and not kwargs and isinstance(call.args[0], ast.Call) and isinstance(args[0], K) and isinstance(args[0].v, tuple):
+            # next(<a generator freshly made by this very call>, default): its first item
+            if args[0].v:
+                x0 = args[0].v[0]
+                return x0 if isinstance(x0, V) else K(x0)
+            if len(args) == 2:
+                return args[1]
+            st.pending = st.pending or "StopIteration"
+            return U("StopIteration")
+        if isinstance(fval, K) and isinstance(fval.v, frozenset) and meth == "isdisjoint" and len(args) == 1:
+            other = it.iterate(args[0], st)
+            if other is not None:
+                return K(not any(x in fval.v for x in (st.freeze(o_) for o_ in other)))
         if fname in ("cast", "typing.cast") and len(args) == 2 and not kwargs:
             return args[1]  # typing.cast is the identity on its second argument
         if fname == "object" and not args and not kwargs and isinstance(call.func, ast.Name):
             return R("sentinel", site=K(id(call)))  # a fresh object used for its identity (`_MISSING = object()`)
         if fname == "dict" and not args and kwargs and "**" not in kwargs and self.heap:
             return st.alloc("dict", {K(k_): v_ for k_, v_ in kwargs.items()})  # dict(a=1, b=2)
+        if fname in ("itertools.repeat", "repeat") and len(args) == 2 and not kwargs and isinstance(args[1], K) and isinstance(args[1].v, int):
+            return K(tuple([args[0]] * max(args[1].v, 0)))
+        if fname in ("operator.methodcaller", "methodcaller") and args and isinstance(args[0], K) and isinstance(args[0].v, str):
+            return R("accessor", what=K("method"), names=K((args[0],)), margs=K(tuple(args[1:])), mkwargs=K(tuple(sorted(kwargs.items()))))
+        if isinstance(fval, R) and fval.kind == "accessor" and fval.fields["what"] == K("method") and isinstance(call.func, ast.Name) and len(args) == 1 and not kwargs:
+            # operator.methodcaller(name, *a, **kw)(obj) is obj.name(*a, **kw)
+            margs = list(fval.fields["margs"].v)
+            mkw = dict(fval.fields["mkwargs"].v)
+            names_m = ["__mc_obj__"] + [f"__mc{i}" for i in range(len(margs))] + [f"__mck_{k_}" for k_ in mkw]
+            saved_m = {n_: st.env.get(n_) for n_ in names_m}
+            st.env["__mc_obj__"] = args[0]
+            for i, a_ in enumerate(margs):
+                st.env[f"__mc{i}"] = a_
+            for k_, v_ in mkw.items():
+                st.env[f"__mck_{k_}"] = v_
+            try:
+                fake_m = ast.Call(func=ast.Attribute(value=ast.Name(id="__mc_obj__", ctx=ast.Load()), attr=fval.fields["names"].v[0].v, ctx=ast.Load()),
+                                  args=[ast.Name(id=f"__mc{i}", ctx=ast.Load()) for i in range(len(margs))],
+                                  keywords=[ast.keyword(arg=k_, value=ast.Name(id=f"__mck_{k_}", ctx=ast.Load())) for k_ in mkw])
+                return it.eval(fake_m, st)
+            finally:
+                for n_, v_ in saved_m.items():
+                    if v_ is None:
+                        st.env.pop(n_, None)
+                    else:
+                        st.env[n_] = v_
         if fname in ("itertools.islice", "islice") and 2 <= len(args) <= 4 and not kwargs and all(isinstance(a, K) and (a.v is None or isinstance(a.v, int)) for a in args[1:]):
             seq_i = it.iterate(args[0], st)
             if seq_i is None:
@@ -1036,6 +1119,22 @@ class RepoInterp:
         """call a first-class callable value: a closure, a bound method of a heap object, a function token, an accessor"""
         if isinstance(fv, R) and fv.kind == "localfunc":
             return self.interp._call_local(fv, list(args), dict(kwargs), st)
+        if isinstance(fv, R) and fv.kind == "memoized" and isinstance(fv.fields.get("memo"), Ref):
+            table = st.dict_of(fv.fields["memo"])
+            mk = K((K(tuple(st.freeze(a) for a in args)), K(tuple(sorted((n, repr(st.freeze(v))) for n, v in kwargs.items())))))
+            if mk in table:
+                st.effects.append(("lru-hit", "value"))
+                return table[mk]
+            before = st.pending
+            v_m = self.call_value(fv.fields["of"], call, args, kwargs, st)
+            if v_m is not None and st.pending is None and before is None and not isinstance(v_m, U):
+                table[mk] = v_m
+            return v_m
+        if isinstance(fv, R) and fv.kind == "rawfunc":
+            raw = next((f for f in self.repo.all_functions() if f.fq == fv.fields["fq"].v), None)
+            if raw is None:
+                return None
+            return self._inline_call(raw, call, None, list(args), dict(kwargs), st)
         if isinstance(fv, R) and fv.kind == "boundmethod" and isinstance(fv.fields.get("self"), Ref):
             obj = fv.fields["self"]
             ci = self._class_of_ref(obj, st)
@@ -1203,7 +1302,15 @@ class _OracleInterp(Interp):
             if key in self.owner.oracle:
                 return self.owner.oracle[key]
         if isinstance(e, ast.Set):
-            vals = [self.eval(x, st) for x in e.elts]
+            vals = []
+            for x in e.elts:
+                if isinstance(x, ast.Starred):
+                    seq_s = self.iterate(self.eval(x.value, st), st)
+                    if seq_s is None:
+                        return U("starred in a set display")
+                    vals.extend(st.freeze(y) for y in seq_s)
+                else:
+                    vals.append(st.freeze(self.eval(x, st)))
             return K(frozenset(vals))
         if isinstance(e, ast.JoinedStr):
             out = ""
